@@ -421,11 +421,14 @@ func SpecMatch(pattern string, hasWild bool, s string) bool {
 //@ func (*ResourceSubscription).GetModel
 //@   requires rs != nil && rs.e != nil
 //@   ensures[C01] result0 == rs.model && result1 == rs.version
+// (a snapshot object belongs to one version: every update builds a new object)
+//@   defines result0 != nil ==> ufInt_snapver(result0) == result1
 //@   assigns nothing
 //@   safety[C15]
 //@ func (*ResourceSubscription).GetCollection
 //@   requires rs != nil && rs.e != nil
 //@   ensures[C01] result0 == rs.collection && result1 == rs.version
+//@   defines result0 != nil ==> ufInt_snapver(result0) == result1
 //@   assigns nothing
 //@   safety[C15]
 
